@@ -3,8 +3,8 @@
 # Confirms a seeded change in the sub-agent's own scratch worktree (/tmp/seed/Cxx/repo), moved to /repo's HEAD:
 # patch applies, builds, unedited suite passes, demonstration fails with the change and passes without it.
 prop=$1; v=$2
-d=/tmp/seed/$prop; wt=$d/repo; patch=$d/patch$v.diff; demo=$d/demo$v
-out=/tmp/seed/results/$prop$v.json; mkdir -p /tmp/seed/results
+d=${SEEDBASE:-/tmp/seed}/$prop; wt=$d/repo; patch=$d/patch$v.diff; demo=$d/demo$v
+out=${SEEDBASE:-/tmp/seed}/results/$prop$v.json; mkdir -p ${SEEDBASE:-/tmp/seed}/results
 export GOFLAGS=-mod=mod GOPROXY=off GOSUMDB=off GOTOOLCHAIN=local
 head=$(git -C /repo rev-parse HEAD)
 git -C $wt checkout -q -- . ; git -C $wt clean -fdxq; git -C $wt checkout -q --detach $head || { echo "{\"seed\":\"$prop$v\",\"error\":\"checkout\"}" > $out; exit 1; }
